@@ -143,10 +143,17 @@ impl Parsable for Layout {
                     ));
                 }
                 if raw_property.is_variant_id() && variant_name.is_some() {
-                    return Err(format_error!(
-                        "VariantId cannot be in the middle of a variant definition.",
-                        parser
-                    ));
+                    // A new variant starts. The previous one must be complete.
+                    if variant_size != entry_size - common_size {
+                        return Err(format_error!(
+                            "VariantId cannot be in the middle of a variant definition.",
+                            parser
+                        ));
+                    }
+                    variants.push(Properties::new(common_size, variant_def).into());
+                    variants_map.insert(variant_name.take().unwrap(), variants.len() as u8 - 1);
+                    variant_def = Vec::new();
+                    variant_size = 0;
                 }
                 if raw_property.is_variant_id() {
                     // This is a special property
@@ -164,21 +171,19 @@ impl Parsable for Layout {
                             parser
                         ))
                     }
-                    Ordering::Equal => {
-                        variants.push(Properties::new(common_size, variant_def).into());
-                        variants_map.insert(variant_name.unwrap(), variants.len() as u8 - 1);
-                        variant_def = Vec::new();
-                        variant_size = 0;
-                        variant_name = None;
-                    }
-                    Ordering::Less => {
-                        /* Noting to do */
+                    Ordering::Equal | Ordering::Less => {
+                        // A variant is closed by the next VariantId (or the end of the properties)
+                        // as zero sized properties (with a default value) may follow.
                         continue;
                     }
                 }
             }
-            if !variant_def.is_empty() {
-                return Err(format_error!("We cannot have left over variant definiton."));
+            if let Some(variant_name) = variant_name {
+                if variant_size != entry_size - common_size {
+                    return Err(format_error!("We cannot have left over variant definiton."));
+                }
+                variants.push(Properties::new(common_size, variant_def).into());
+                variants_map.insert(variant_name, variants.len() as u8 - 1);
             }
             if variants.len() != variant_count.into_usize() {
                 return Err(format_error!(
